@@ -131,6 +131,8 @@ def step (_ : Unit) (line : String) : Unit × String :=
           | .list [.atom a, .atom v] => do some ((← a.toNat?), v == "t")
           | _ => none) with
       | some ev =>
+        let nw := ((Sem.restrict P (qs ++ ev.map (·.1))).groups.map (fun g => g.alts.length + 1)).foldl (· * ·) 1
+        if nw > 40000 then "toobig " ++ toString nw else
         let r := Sem.run P qs ev
         renderRat r.z ++ " " ++ renderList (r.num.map renderRat) ++ " " ++ toString r.undefWorlds ++ " " ++
           toString r.nworlds ++ " " ++ toString (Sem.hasNegCycle P (qs ++ ev.map (·.1)))
